@@ -83,6 +83,156 @@ func ruleActiveFlushed(r *Run, rule string, k *storeKind) {
 			}
 		})
 		r.Check(ok, rule, "active:rotateIfNotEmpty", w.Pos(fn.Pos())+" "+w.Name(fn), "rotation is skipped only for an active memtable with count() == 0", "the rotation guard is not `count() > 0`")
+		// … and on which side of it the rotation sits: rotated ⇔ the active memtable holds something
+		var rot ssa.Instruction
+		allInstrs(fn, func(in ssa.Instruction) {
+			if call, okc := in.(*ssa.Call); okc {
+				if g := staticCallee(call.Common()); g != nil && g.Pkg == w.SPkg && strings.HasPrefix(fnShortName(g), "rotate") {
+					rot = in
+				}
+			}
+		})
+		if rot == nil {
+			r.Bad(rule, "active:rotateIfNotEmpty:table", w.Pos(fn.Pos())+" "+w.Name(fn), "rotateIfNotEmpty never rotates")
+		} else {
+			rows, _ := regionPaths(fn.Blocks[0], func(*ssa.BasicBlock) bool { return false }, func(cond ssa.Value) (string, bool) {
+				bo, okb := cond.(*ssa.BinOp)
+				if !okb {
+					return "", false
+				}
+				cmp, neg, okc := normCmp(c, bo)
+				if !okc {
+					return "", false
+				}
+				isCount := func(s string) bool { return strings.Contains(s, "count(P0.mutable)") }
+				switch {
+				case cmp.Op == token.LSS && cmp.L == "c(0)" && isCount(cmp.R): // 0 < count
+					return "NONEMPTY", neg
+				case cmp.Op == token.LEQ && isCount(cmp.L) && cmp.R == "c(0)": // count <= 0
+					return "NONEMPTY", !neg
+				case cmp.Op == token.EQL && (isCount(cmp.L) && cmp.R == "c(0)" || isCount(cmp.R) && cmp.L == "c(0)"): // count == 0
+					return "NONEMPTY", !neg
+				case cmp.Op == token.LEQ && cmp.L == "c(1)" && isCount(cmp.R): // 1 <= count
+					return "NONEMPTY", neg
+				}
+				return "", false
+			}, 1)
+			bad, _ := tableCheck([]string{"NONEMPTY"}, rows, func(row pathRow) string {
+				if row.P.Has(rot) {
+					return "rotate"
+				}
+				return "keep"
+			}, func(a map[string]bool) string {
+				if a["NONEMPTY"] {
+					return "rotate"
+				}
+				return "keep|rotate" // rotating an empty memtable only wastes a segment; not rotating a non-empty one loses its documents
+			})
+			r.Check(len(bad) == 0, rule, "active:rotateIfNotEmpty:table", w.InstrPos(rot)+" "+w.Name(fn), "the active memtable is frozen whenever it holds a document", "a non-empty active memtable is not frozen: "+truncList(bad, 2))
+		}
+	}
+	// the queue forgets exactly the memtable it is told to: the element equal to the argument, shifted out, never the last
+	// (active) one
+	if fn := r.W.Fn("(*memtableQueue).remove"); fn != nil {
+		c := NewCanon(w)
+		var shift, trunc ssa.Instruction
+		allInstrs(fn, func(in ssa.Instruction) {
+			if call, okc := isBuiltinCall(in, "copy"); okc {
+				d, sr := c.S(call.Call.Args[0]), c.S(call.Call.Args[1])
+				// copy(queue[i:], queue[i+1:])
+				if strings.HasPrefix(d, "P0.queue[") && strings.HasPrefix(sr, "P0.queue[") {
+					dsl, okD := call.Call.Args[0].(*ssa.Slice)
+					ssl, okS := call.Call.Args[1].(*ssa.Slice)
+					if okD && okS && dsl.High == nil && ssl.High == nil {
+						if bo, okB := ssl.Low.(*ssa.BinOp); okB && bo.Op == token.ADD && bo.X == dsl.Low && c.S(bo.Y) == "c(1)" {
+							shift = in
+						}
+					}
+				}
+			}
+			if st, okS := in.(*ssa.Store); okS && c.S(st.Addr) == "P0.queue" {
+				if sl, okSl := st.Val.(*ssa.Slice); okSl && sl.Low == nil && c.S(sl.High) == "(len(P0.queue)-c(1))" {
+					trunc = in
+				}
+			}
+		})
+		site := w.Pos(fn.Pos()) + " " + w.Name(fn)
+		if shift == nil || trunc == nil {
+			r.Bad(rule, "queue:remove:shape", site, "the queue does not remove by shifting the tail one slot down and dropping the last slot (copy(q[i:], q[i+1:]); q = q[:len(q)-1])")
+		} else {
+			var idx ssa.Value
+			if dsl, okD := shift.(*ssa.Call).Call.Args[0].(*ssa.Slice); okD {
+				idx = dsl.Low
+			}
+			// the removal ends in a return, so it is not part of the natural loop: one iteration = from the header of the
+			// loop that dominates it to the header again or to a return
+			var header *ssa.BasicBlock
+			for _, l := range loopsOf(fn) {
+				if l.Header.Dominates(shift.Block()) {
+					header = l.Header
+				}
+			}
+			if header == nil {
+				header = fn.Blocks[0]
+			}
+			classify := func(cond ssa.Value) (string, bool) {
+				bo, okb := cond.(*ssa.BinOp)
+				if !okb || (bo.Op != token.EQL && bo.Op != token.NEQ) {
+					return "", false
+				}
+				l, rr := c.S(bo.X), c.S(bo.Y)
+				switch {
+				case (l == "P0.queue[range]" && rr == "P1") || (rr == "P0.queue[range]" && l == "P1"):
+					return "SAME", bo.Op == token.NEQ
+				case (bo.X == idx && rr == "(len(P0.queue)-c(1))") || (bo.Y == idx && l == "(len(P0.queue)-c(1))"):
+					return "LAST", bo.Op == token.NEQ
+				}
+				return "", false
+			}
+			paths, _ := enumPaths(header, walkCfg{Stop: func(b *ssa.BasicBlock) bool { return b == header }, MaxVisits: 2, MaxPaths: 2000})
+			var rows []pathRow
+			for _, pth := range paths {
+				if pth.End == EndCycle || !pth.Feasible() || len(pth.Blocks) < 2 {
+					continue
+				}
+				// the way out of the loop when the range is exhausted is not an iteration
+				if len(pth.Decisions) > 0 && pth.Decisions[0].If.Block() == header && !pth.Decisions[0].Taken {
+					continue
+				}
+				if row := classifyPath(pth, classify); !row.Conflict {
+					rows = append(rows, row)
+				}
+			}
+			bad, _ := tableCheck([]string{"SAME", "LAST"}, rows, func(row pathRow) string {
+				if row.P.Has(shift) && row.P.Has(trunc) {
+					return "remove"
+				}
+				if row.P.Has(shift) || row.P.Has(trunc) {
+					return "half"
+				}
+				return "keep"
+			}, func(a map[string]bool) string {
+				if a["SAME"] && !a["LAST"] {
+					return "remove"
+				}
+				return "keep"
+			})
+			okIdx := idx != nil && isRangeIndex(idx)
+			sameSeen := false
+			for _, row := range rows {
+				if _, has := row.Atoms["SAME"]; has {
+					sameSeen = true
+				}
+			}
+			if !okIdx || !sameSeen {
+				// another way of finding the position (an index search first, slices.Index, a counted loop with its own
+				// bound): the shape above holds, when it runs is not decided here
+				r.Note(rule, "queue:remove:table", w.InstrPos(shift)+" "+w.Name(fn), "the position to remove is not found by a range loop with an identity test; only the shape of the removal was checked")
+			} else {
+				r.Check(len(bad) == 0 && okIdx, rule, "queue:remove:table", w.InstrPos(shift)+" "+w.Name(fn), "the queue drops exactly the memtable it was given, and never the active one at the end",
+					"the queue does not remove exactly `the element equal to the argument, unless it is the last`: "+truncList(bad, 3))
+			}
+		}
 	}
 	// the counter only grows: every Add on it adds the constant 1 (a decrement — on a removal that may even be rejected —
 	// lets a non-empty memtable read as empty, and Flush then skips it)
@@ -127,6 +277,7 @@ func ruleActiveFlushed(r *Run, rule string, k *storeKind) {
 func ruleDurabilityErrors(r *Run, rule string, k *storeKind) {
 	w := r.W
 	r.Doc(rule, "nil is acknowledged although bytes were not written")
+	ruleCloseErrors(r, rule, k)
 	// (a) errors of flushMemtables / flushMemtable / WriteTo are not discarded
 	checkUsed := func(fn *ssa.Function, call *ssa.Call, what string) {
 		used := false
@@ -549,6 +700,59 @@ func ruleSegmentIDs(r *Run, rule string, k *storeKind) {
 		}
 	})
 	r.Check(okBase, rule, "ids:init:base10", w.Pos(initFn.Pos())+" "+w.Name(initFn), "zero-padded ids are parsed in base 10", "ids are not parsed in base 10 (000008 / 000009 are not octal)")
+	// what is parsed is the id part of the name: the file-name suffix of the segment files is cut off first (otherwise
+	// nothing parses and the counter starts at zero over a directory full of segments)
+	{
+		okSuffix := false
+		checkFn := func(fn *ssa.Function) {
+			cs := NewCanon(w)
+			for _, call := range callsTo(fn, "strconv.ParseUint") {
+				if a := cs.S(call.Call.Args[0]); strings.Contains(a, "strings.TrimSuffix(") && strings.Contains(a, `c(".bin.gz")`) {
+					okSuffix = true
+				}
+				// or a fixed-width cut of the digits
+				if _, isSlice := call.Call.Args[0].(*ssa.Slice); isSlice {
+					okSuffix = true
+				}
+			}
+		}
+		checkFn(initFn)
+		allInstrs(initFn, func(in ssa.Instruction) {
+			if ex, ok := in.(*ssa.Extract); ok {
+				if g := parsedByHelper(w, ex); g != nil {
+					checkFn(g)
+				}
+			}
+		})
+		r.Check(okSuffix, rule, "ids:init:suffix", w.Pos(initFn.Pos())+" "+w.Name(initFn), "the \".bin.gz\" suffix is removed from the name before the id is parsed", "the id is parsed from a string that still carries the file suffix: no existing segment is recognised and ids start again at 1")
+	}
+	// every directory entry is looked at: no iteration ends the scan
+	initLoops := loopsOf(initFn)
+	for _, l := range initLoops {
+		early := ""
+		paths, _ := enumPaths(l.Header, walkCfg{Stop: func(b *ssa.BasicBlock) bool { return b == l.Header || !l.Blocks[b] }, MaxVisits: 2, MaxPaths: 4000})
+		for _, pth := range paths {
+			if pth.End == EndCycle || !pth.Feasible() {
+				continue
+			}
+			if pth.End == EndStop && len(pth.Blocks) == 2 && !l.Blocks[pth.Blocks[1]] {
+				continue
+			}
+			if pth.End == EndStop && !l.Blocks[pth.Blocks[len(pth.Blocks)-1]] {
+				last := pth.Blocks[len(pth.Blocks)-2]
+				early = w.InstrPos(last.Instrs[len(last.Instrs)-1])
+			}
+		}
+		isOuter := true
+		for _, l2 := range initLoops {
+			if l2 != l && l2.Blocks[l.Header] {
+				isOuter = false
+			}
+		}
+		if isOuter {
+			r.Check(early == "", rule, "ids:init:scan-complete", w.Pos(initFn.Pos())+" "+w.Name(initFn), "the scan of the directory looks at every entry", "an iteration of the directory scan leaves the loop at "+early+": ids of the entries after it are not reserved")
+		}
+	}
 	r.Check(scansDir && restricted == "", rule, "ids:init:all-files", w.Pos(initFn.Pos())+" "+w.Name(initFn), "every segment-like file name of the directory counts (partial segments keep their id reserved)", "the id scan is restricted (prefix "+restricted+", own directory scan="+fmt.Sprint(scansDir)+"): ids of partial segments can be reused")
 	// the provider constructor initialises the counter on every success path
 	if ctor := w.Fn("newStorageProvider"); ctor != nil {
@@ -823,6 +1027,93 @@ func ruleSegmentLoad(r *Run, p string, k *storeKind) {
 						}
 					}
 				}
+			}
+		}
+		// every segment is searched: the spawning loop over the segment list is entered whenever the list is non-empty
+		{
+			var spawn ssa.Instruction
+			allInstrs(k.Execute, func(in ssa.Instruction) {
+				if g, isGo := in.(*ssa.Go); isGo {
+					if staticCallee(g.Common()) == seg {
+						spawn = in
+					}
+					if mc, isMC := g.Call.Value.(*ssa.MakeClosure); isMC && mc.Fn == ssa.Value(seg) {
+						spawn = in
+					}
+				}
+			})
+			if spawn != nil {
+				ce := NewCanon(w)
+				paths, trunc := enumPaths(k.Execute.Blocks[0], walkCfg{MaxVisits: 1, MaxPaths: 20000 * pathScale, Decide: decideOnPath,
+					Stop: func(b *ssa.BasicBlock) bool { return b == spawn.Block() }})
+				badGuard := ""
+				reached := 0
+				if !trunc {
+					for _, pth := range paths {
+						if pth.End != EndStop || !pth.Feasible() {
+							continue
+						}
+						reached++
+						for _, d := range pth.Decisions {
+							cs := ce.S(d.Cond)
+							if !strings.Contains(cs, "segmentManager).list(") || !strings.Contains(cs, "len(") {
+								continue
+							}
+							if _, isRange := d.Cond.(*ssa.BinOp); isRange && isRangeIndex(d.Cond.(*ssa.BinOp).X) {
+								continue // the range loop's own bound test
+							}
+							x, nonEmpty, okE := nonEmptyCmp(ce, d.Cond)
+							if !okE || !strings.Contains(x, "segmentManager).list(") {
+								badGuard = "the segment loop is guarded by " + cs + ", which is not a plain emptiness test of the segment list"
+							} else if d.Taken != nonEmpty {
+								badGuard = "the segment loop is entered on the side of " + cs + " where the segment list is empty: segments on disk are never searched"
+							}
+						}
+					}
+				}
+				r.Check(!trunc && reached > 0 && badGuard == "", p+".SKIP", "skip:all-segments", w.InstrPos(spawn)+" "+w.Name(k.Execute), "every listed segment gets its search (the spawning loop is entered whenever segments exist)", badGuard)
+			}
+		}
+		// the other half: a segment that loads and searches contributes its hits — on every path through the routine on
+		// which both the load and the search were found error-free, the search's results are sent
+		{
+			var exec *ssa.Call
+			for _, ex := range invokesOf(seg, "Execute") {
+				exec = ex
+			}
+			var send *ssa.Send
+			allInstrs(seg, func(in ssa.Instruction) {
+				if sd, isSend := in.(*ssa.Send); isSend {
+					if ex, isEx := sd.X.(*ssa.Extract); isEx && exec != nil && ex.Tuple == ssa.Value(exec) && ex.Index == 0 {
+						send = sd
+					}
+					if lf, okL := litFields(sd.X); okL && exec != nil {
+						for _, fv := range lf {
+							if ex, isEx := fv.(*ssa.Extract); isEx && ex.Tuple == ssa.Value(exec) && ex.Index == 0 {
+								send = sd
+							}
+						}
+					}
+				}
+			})
+			if exec != nil && send != nil {
+				paths, trunc := enumPaths(seg.Blocks[0], walkCfg{MaxVisits: 1, MaxPaths: 8000 * pathScale, Decide: decideOnPath})
+				lost, wrong := "", ""
+				if !trunc {
+					for _, pth := range paths {
+						if pth.End != EndReturn || !pth.Feasible() || !pth.Has(exec) {
+							continue
+						}
+						loadOK, searchOK := errNilDecidedOnPath(pth, gi, 1), errNilDecidedOnPath(pth, exec, 1)
+						if loadOK && searchOK && !pth.Has(send) {
+							lost = "a path on which the segment loaded and its search succeeded ends without sending the hits"
+						}
+						if pth.Has(send) && !(loadOK && searchOK) {
+							wrong = "hits are sent on a path that did not establish that load and search succeeded"
+						}
+					}
+				}
+				r.Check(!trunc && lost == "" && wrong == "", p+".SKIP", "skip:sends-on-success", w.InstrPos(send)+" "+w.Name(seg), "the hits of a segment are sent exactly when its load and its search succeeded", lost+wrong)
 			}
 		}
 		r.Check(ok, p+".SKIP", "skip:load-error", w.InstrPos(gi)+" "+w.Name(seg), "a segment that fails to load contributes nothing and does not fail the search", "a segment load error is reported / stored instead of skipping the segment")
@@ -1130,6 +1421,25 @@ func ruleOwnership(r *Run, p string, k *storeKind) {
 		// the acquisition never removes a lock file this call did not create: every os.Remove in it lies on the success side
 		// of an exclusive create (cleanup after a failed write of the owner record). Removing the file on the "already
 		// exists" side — however stale the lock looks — lets two openers own the directory
+		// the handle of the lock file is kept on every successful acquisition: the release closes and removes the lock only
+		// when it finds the handle
+		{
+			cl := NewCanon(w)
+			var keep *ssa.Store
+			allInstrs(acq, func(in ssa.Instruction) {
+				if st, okS := in.(*ssa.Store); okS && cl.S(st.Addr) == "P0.lockFile" {
+					if ex, okE := st.Val.(*ssa.Extract); okE && ex.Tuple == ssa.Value(open) && ex.Index == 0 {
+						keep = st
+					}
+				}
+			})
+			if keep == nil {
+				r.Bad(p+".RELEASE", "lock:handle-kept", w.Pos(acq.Pos())+" "+w.Name(acq), "a successful acquisition does not keep the lock file's handle: the release finds nothing to release and the directory stays locked after Close")
+			} else {
+				esc := successEscapesWrap(acq, func(in ssa.Instruction) bool { return in == ssa.Instruction(keep) })
+				r.Check(esc == nil, p+".RELEASE", "lock:handle-kept", w.InstrPos(keep)+" "+w.Name(acq), "every successful acquisition records the lock file's handle for the release", "a successful acquisition can return without recording the lock file's handle")
+			}
+		}
 		for _, rm := range callsTo(acq, "os.Remove") {
 			own := false
 			for _, op := range callsTo(acq, "os.OpenFile") {
@@ -1159,6 +1469,7 @@ func ruleOwnership(r *Run, p string, k *storeKind) {
 					}
 				}
 			}
+			_ = own
 			r.Check(own, p+".EXCL", "lock:removes-only-own", w.InstrPos(rm)+" "+w.Name(acq), "the lock file is removed only after this call created it", "the acquisition removes a lock file it did not create (takeover): the previous owner may still be alive, or just about to write its record")
 		}
 		c := NewCanon(w)
@@ -2099,4 +2410,173 @@ func orderedOnPath(p *Path, a, b ssa.Instruction) bool {
 		}
 	}
 	return false
+}
+
+// ruleCloseErrors: in the routines that write a segment, the error of every explicit (not deferred) Close of a writer
+// reaches the routine's error result — a failed close means the bytes did not reach the file.
+func ruleCloseErrors(r *Run, rule string, k *storeKind) {
+	w := r.W
+	for _, fn := range []*ssa.Function{k.FlushOne, k.WriteSeg} {
+		n := 0
+		bad := ""
+		allInstrs(fn, func(in ssa.Instruction) {
+			call, ok := in.(*ssa.Call)
+			if !ok || !call.Call.IsInvoke() || call.Call.Method.Name() != "Close" {
+				return
+			}
+			n++
+			// forward flow of the returned error
+			seen := map[ssa.Value]bool{}
+			reaches := false
+			var flow func(v ssa.Value, depth int)
+			flow = func(v ssa.Value, depth int) {
+				if seen[v] || depth > 10 || v.Referrers() == nil || reaches {
+					return
+				}
+				seen[v] = true
+				for _, ref := range *v.Referrers() {
+					switch x := ref.(type) {
+					case *ssa.Return:
+						reaches = true
+					case *ssa.Phi:
+						flow(x, depth+1)
+					case *ssa.MakeInterface:
+						flow(x, depth+1)
+					case *ssa.ChangeInterface:
+						flow(x, depth+1)
+					case *ssa.Store:
+						if x.Val == v {
+							switch a := x.Addr.(type) {
+							case *ssa.Alloc:
+								for _, r2 := range *a.Referrers() {
+									if ld, ok := r2.(*ssa.UnOp); ok && ld.Op == token.MUL {
+										flow(ld, depth+1)
+									}
+								}
+							case *ssa.IndexAddr:
+								// varargs of fmt.Errorf
+								if arr, ok := a.X.(*ssa.Alloc); ok {
+									for _, r2 := range *arr.Referrers() {
+										if sl, ok := r2.(*ssa.Slice); ok {
+											for _, r3 := range *sl.Referrers() {
+												if c2, ok := r3.(*ssa.Call); ok && (calleeName(c2.Common()) == "fmt.Errorf" || calleeName(c2.Common()) == "errors.Join") {
+													flow(c2, depth+1)
+												}
+											}
+										}
+									}
+								}
+							}
+						}
+					case *ssa.Call:
+						if cn := calleeName(x.Common()); cn == "errors.Join" || cn == "fmt.Errorf" {
+							flow(x, depth+1)
+						}
+					case *ssa.Slice:
+						flow(x, depth+1)
+					}
+				}
+			}
+			flow(call, 0)
+			if !reaches {
+				bad = w.InstrPos(call)
+			}
+		})
+		// a close loop `for _, c := range closers { if e := c.Close(); e != nil && err == nil { err = e } }`: as a table over
+		// (close failed, an earlier error is pending) — a failed close is kept unless an earlier error already is
+		allInstrs(fn, func(in ssa.Instruction) {
+			call, ok := in.(*ssa.Call)
+			if !ok || !call.Call.IsInvoke() || call.Call.Method.Name() != "Close" {
+				return
+			}
+			loop := innermostLoop(loopsOf(fn), call.Block())
+			if loop == nil {
+				return
+			}
+			var errPhi *ssa.Phi
+			for _, hin := range loop.Header.Instrs {
+				if ph, ok := hin.(*ssa.Phi); ok && types.Identical(ph.Type(), errorType) {
+					errPhi = ph
+				}
+			}
+			if errPhi == nil {
+				return
+			}
+			rows, trunc := iterationPaths(loop, func(cond ssa.Value) (string, bool) {
+				bo, ok := cond.(*ssa.BinOp)
+				if !ok || (bo.Op != token.EQL && bo.Op != token.NEQ) {
+					return "", false
+				}
+				isNil := func(y ssa.Value) bool { k, ok := y.(*ssa.Const); return ok && k.Value == nil }
+				var x ssa.Value
+				switch {
+				case isNil(bo.Y):
+					x = bo.X
+				case isNil(bo.X):
+					x = bo.Y
+				default:
+					return "", false
+				}
+				switch x {
+				case ssa.Value(call):
+					return "CLOSEFAILED", bo.Op == token.EQL
+				case ssa.Value(errPhi):
+					return "PENDING", bo.Op == token.EQL
+				}
+				return "", false
+			})
+			if trunc {
+				return
+			}
+			badRows, _ := tableCheck([]string{"CLOSEFAILED", "PENDING"}, rows, func(row pathRow) string {
+				if row.P.End == EndStop && row.P.Blocks[len(row.P.Blocks)-1] == loop.Header {
+					e := row.P.PhiEdge(errPhi)
+					if e != nil {
+						e = resolveOnPath(row.P, e)
+					}
+					if e == ssa.Value(call) {
+						return "takes"
+					}
+					// joined with / wrapped around the pending error
+					if jc, isCall := e.(*ssa.Call); isCall {
+						if cn := calleeName(jc.Common()); cn == "errors.Join" || cn == "fmt.Errorf" {
+							if len(jc.Call.Args) > 0 {
+								if es, okE := sliceElems(jc.Call.Args[len(jc.Call.Args)-1]); okE {
+									for _, x := range es {
+										if mi, isMI := x.(*ssa.MakeInterface); isMI {
+											x = mi.X
+										}
+										if resolveOnPath(row.P, x) == ssa.Value(call) {
+											return "takes"
+										}
+									}
+								}
+							}
+						}
+					}
+					return "keeps"
+				}
+				return "leaves"
+			}, func(a map[string]bool) string {
+				switch {
+				case a["CLOSEFAILED"] && !a["PENDING"]:
+					return "takes|leaves"
+				case a["CLOSEFAILED"]:
+					return "takes|keeps|leaves"
+				case a["PENDING"]:
+					return "keeps|leaves"
+				}
+				return "keeps|takes" // nil over nil
+			})
+			if len(badRows) > 0 {
+				bad = w.InstrPos(call) + " (" + truncList(badRows, 2) + ")"
+			}
+		})
+		if n == 0 {
+			r.Bad(rule, "err:close:"+w.Name(fn), w.Pos(fn.Pos())+" "+w.Name(fn), "the segment writer never closes its streams explicitly: a failed close cannot be reported")
+			continue
+		}
+		r.Check(bad == "", rule, "err:close:"+w.Name(fn), w.Pos(fn.Pos())+" "+w.Name(fn), fmt.Sprintf("the error of every explicit Close (%d sites) reaches the result", n),
+			"the error of the Close at "+bad+" never reaches the routine's result: a segment whose data did not reach the file is registered as written")
+	}
 }
